@@ -252,7 +252,7 @@ Section Event.
           { destruct (waits_on (Some a)) as [ch|] eqn:Ew; [|reflexivity]. specialize (H14 ch eq_refl). congruence. }
           pose proof (exp_sends_ge _ _ _ _ _ Hx) as Hge. pose proof (ev_wake_ge k tk a Hk Ec) as Hwg.
           assert (Hew : aw_wake a (t_iv tk) <= aw_end a (t_iv tk) noarr).
-          { clear -Hkind Hnw. destruct a as [s|v dl|biased tie sa sb| | | | |rearm d3 s sx|pre s]; try contradiction; cbn [aw_end aw_wake]; try lia.
+          { clear -Hkind Hnw. destruct a as [s|v dl|biased tie sa sb| | | | |rearm d3 s sx|pre s|kr chi cho]; try contradiction; cbn [aw_end aw_wake]; try lia.
             - destruct v; try contradiction; [cbn [aw_end aw_wake]; lia|discriminate].
             - destruct (deadline s <=? deadline sx) eqn:E; lia. }
           lia.
